@@ -106,11 +106,15 @@ impl Acc {
 }
 
 fn check_graph(name: &str, g: &Graph, cfg_base: &ExploreCfg) -> Acc {
+    check_graph_sems(name, g, cfg_base, &crate::refmodel::ALL_SEMS)
+}
+
+fn check_graph_sems(name: &str, g: &Graph, cfg_base: &ExploreCfg, sems: &[Sem]) -> Acc {
     let mut acc = Acc::default();
     let connected = g.is_connected();
     let b = build_usize(g, Presentation::Compact);
     for kind in [QKind::SE, QKind::DC, QKind::DS] {
-        for sem in crate::refmodel::ALL_SEMS {
+        for &sem in sems {
             let bk = match bound_kind(kind, sem) {
                 Some(b) => b,
                 None => continue,
@@ -263,6 +267,7 @@ pub fn run(tier: Tier) -> i32 {
     let mut rep = Report::new("C18", tier);
     let thorough = tier == Tier::Thorough;
     let mut plans: Vec<(String, Vec<(String, Graph)>, ExploreCfg)> = vec![];
+    let mut pr_only: Vec<(String, Vec<(String, Graph)>, ExploreCfg)> = vec![];
     let full = ExploreCfg { dev_bound: None, fv: FvPolicy::False, max_execs: 50_000, ..ExploreCfg::default() };
     plans.push((
         "connected U(<=3), complete choice tree".into(),
@@ -281,6 +286,14 @@ pub fn run(tier: Tier) -> i32 {
         ExploreCfg { dev_bound: Some(d), ..full.clone() },
     ));
     if !thorough {
+        // the preferred searches (SE-PR, DS-PR incl. the admissibility encoder) two deviations deep on S
+        pr_only.push((
+            "connected members of S (<= 9 arguments), preferred problems only, D<=2".into(),
+            s_family().into_iter().filter(|(_, g)| g.is_connected() && g.n <= 9).collect(),
+            ExploreCfg { dev_bound: Some(2), ..full.clone() },
+        ));
+    }
+    if !thorough {
         plans.push((
             "connected 4-argument frameworks, one per isomorphism class with <= 5 attacks, D<=1".into(),
             named(crate::universe::iso_representatives_sparse(4, 5).into_iter().filter(|g| g.is_connected()).collect(), "U4iso"),
@@ -296,11 +309,12 @@ pub fn run(tier: Tier) -> i32 {
     }
     let mut min_slack: BTreeMap<String, i64> = BTreeMap::new();
     let mut max_calls: BTreeMap<String, usize> = BTreeMap::new();
-    for (name, graphs, cfg) in plans {
+    let all: Vec<(String, Vec<(String, Graph)>, ExploreCfg, bool)> = plans.into_iter().map(|(a, b, c)| (a, b, c, false)).chain(pr_only.into_iter().map(|(a, b, c)| (a, b, c, true))).collect();
+    for (name, graphs, cfg, pr) in all {
         let acc = graphs
             .par_iter()
             .with_max_len(1)
-            .map(|(n, g)| check_graph(n, g, &cfg))
+            .map(|(n, g)| if pr { check_graph_sems(n, g, &cfg, &[Sem::PR]) } else { check_graph(n, g, &cfg) })
             .reduce(Acc::default, Acc::merge);
         rep.states += acc.stats.nodes;
         rep.transitions += acc.stats.edges;
